@@ -105,6 +105,7 @@ pub enum MapOp {
     Drop,
     Forget,
     WithCapacity(usize),
+    Serde(usize),
 }
 
 #[derive(Clone, Debug)]
@@ -135,6 +136,7 @@ pub enum SetOp {
     Fmt(FmtKind),
     Drop,
     Forget,
+    Serde(usize),
 }
 
 #[derive(Clone, Debug)]
@@ -308,6 +310,7 @@ fn map_op(a: &[&str]) -> Option<MapOp> {
             MapOp::Iter(kind, n.parse().ok()?, script(s)?)
         }
         ["clone", d] => MapOp::CloneTo(mreg(d)?),
+        ["serde", d] => MapOp::Serde(mreg(d)?),
         ["eq", o] => MapOp::Eq(mreg(o)?),
         ["from_iter", p, xs] => MapOp::FromIter(*p == "1", pairs(xs)?),
         ["entry", k, mods, fin] => {
@@ -347,6 +350,7 @@ fn set_op(a: &[&str]) -> Option<SetOp> {
         ["into_iter", t, e] => SetOp::IntoIter(t.parse().ok()?, end(e)?),
         ["iter", s] => SetOp::Iter(script(s)?),
         ["clone", d] => SetOp::CloneTo(sreg(d)?),
+        ["serde", d] => SetOp::Serde(sreg(d)?),
         ["eq", o] => SetOp::Eq(sreg(o)?),
         ["from_iter", p, xs] => SetOp::FromIter(*p == "1", keys(xs)?),
         ["extend", p, xs] => SetOp::Extend(*p == "1", keys(xs)?),
